@@ -8,7 +8,7 @@ from vmc.oracles import scene as sc
 FORMATS = ["glyf_colr_1", "glyf", "glyf_colr_0", "cff_colr_0", "cff_colr_1", "cff2_colr_0", "cff2_colr_1",
            "picosvg", "picosvgz", "untouchedsvg", "untouchedsvgz", "cbdt", "sbix"]
 KEEP = ("vb_origin", "vb_size", "vb_aspect", "metrics", "width", "user", "tol", "clipq", "keep", "outline", "stack", "place",
-        "donor_paint", "copy_paint", "grp", "seqlen", "nglyphs", "where", "lin_vec", "rad_geom", "twin", "shared_grad", "grad_twice")
+        "donor_paint", "copy_paint", "grp", "seqlen", "nglyphs", "where", "lin_vec", "rad_geom", "twin", "shared_grad", "grad_twice", "vb_b")
 DIMS = {"fmt": FORMATS}
 DIMS.update({k: scenes.DIMS[k] for k in KEEP})
 DIMS["pretty"] = [False, True]
@@ -109,6 +109,8 @@ def execute(dev):
 
         return c07_cli.execute(dev)
 
+    if dev.get("_") == "picosvg":  # a state of the picosvg-base lattice (also when replayed from a file)
+        dev = dict(dev, fmt="picosvg")
     dev = {k: v for k, v in dev.items() if k != "_"}
     a = lattice.full(FULL, dev)
     try:
@@ -140,7 +142,7 @@ def run(report, tier, only=None):
         # the base format, so that two scene deviations are explored under it as well
         dims_svg = {k_: v for k_, v in DIMS.items() if k_ not in ("fmt", "bitmap_h", "clipq")}
         dims_svg["fmt"] = ["picosvg"]
-        lattice.explore(report, dims_svg, k, lambda dev: execute(dict(dev, fmt="picosvg")), relevant=relevant, timeout=300, tag="picosvg")
+        lattice.explore(report, dims_svg, k, execute, relevant=relevant, timeout=300, tag="picosvg")
     report.extra["deviation_bound"] = k
     if only in (None, "names"):
         import itertools
